@@ -62,13 +62,15 @@ Theorem C01_refuted_multipleof_zero :
   let s := Sch c None [] [] [] None [] None in
   is_panic (visit rc1 rm1 fo0 st_default s (JNum 0)) = true.
 Proof. vm_compute. reflexivity. Qed.
-(* class 6: an uncompilable pattern panics in multi-error mode *)
-Theorem C01_refuted_bad_pattern_multi :
+(* formerly class 6 (repaired in /repo, "fix: a pattern that does not compile ..."): an uncompilable
+   pattern is inside the guards now - it is rejected in every mode, without a panic *)
+Example C01_bad_pattern_rejected :
   let c := mkCore None [] false false false false "" false false false None None None 0 None "[" 0 None [] 0 None None in
   let s := Sch c None [] [] [] None [] None in
-  is_panic (visit (fun _ => false) rm1 fo0 st_multi_ s (JStr "a")) = true /\
-  is_panic (visit (fun _ => false) rm1 fo0 st_default s (JStr "a")) = false.
-Proof. vm_compute. split; reflexivity. Qed.
+  g_all2 (fun _ => false) rm1 fo0 (md_of st_multi_) false s = true /\
+  visit (fun _ => false) rm1 fo0 st_multi_ s (JStr "a") = Err (EMulti [ESchema S_badpattern c [] JNull []]) /\
+  visit (fun _ => false) rm1 fo0 st_default s (JStr "a") = Err (ESchema S_badpattern c [] JNull []).
+Proof. vm_compute. repeat split. Qed.
 
 (* ---- non-vacuity: a nested schema/value pair meeting every hypothesis, on both verdicts ---- *)
 Definition ex_schema : schema :=
